@@ -333,6 +333,48 @@ pub fn m01(ix: &Index) -> Vec<Violation> {
             out.push(v("C01.unresolved", format!("{:?} never resolved although a responsive broker was available until nothing more could be done", kind), format!("tag {} submitted at {} in state {:?}", tag, r.submit_t, r.submit_state)));
         }
     }
+    // a failing PUBREC is the final acknowledgement of its QoS2 publish: once the engine has accepted it, the
+    // operation must be resolved with exactly that PUBREC (not kept alive, not completed by something later)
+    for (i, e) in tr.evs.iter().enumerate() {
+        if let Ev::SrvSend { desc: SrvDesc::Ack { type_code: 5, reason, nonce: Some(n), for_tag: Some(t), .. }, compliant: true, .. } = e {
+            if *reason < 0x80 {
+                continue;
+            }
+            let r = match ix.tags.get(t) {
+                Some(r) => r,
+                None => continue,
+            };
+            if r.kind != Some(Kind::Pub2) || r.resolved_before(i) {
+                continue;
+            }
+            // the window in which the bytes of this PUBREC are fed to the engine
+            let mut end = i + 1;
+            let mut calls = 0;
+            let mut ok = true;
+            while end < tr.evs.len() {
+                match &tr.evs[end] {
+                    Ev::SrvSend { .. } | Ev::Close { .. } | Ev::Reset { .. } | Ev::Open { .. } | Ev::DrainStart { .. } => break,
+                    Ev::Call { kind: CallKind::Incoming, result, .. } => {
+                        calls += 1;
+                        if result.is_err() {
+                            ok = false;
+                        }
+                    }
+                    Ev::Call { kind: CallKind::Service | CallKind::ServiceUnasked | CallKind::WriteComplete | CallKind::Submit, .. } if calls > 0 => break,
+                    Ev::Panic { .. } => ok = false,
+                    _ => {}
+                }
+                end += 1;
+            }
+            if !ok || calls == 0 {
+                continue;
+            }
+            match r.dones.first() {
+                Some((dev, _, Done::Pubrec { nonce: Some(dn), .. }, _)) if *dev < end && dn == n => {}
+                other => out.push(v("C01.failing_pubrec_not_final", "a QoS2 publish is not resolved by the failing PUBREC the engine accepted for it", format!("tag {} PUBREC reason {:#x} nonce {} outcome {:?}", t, reason, n, other.map(|d| &d.2)))),
+            }
+        }
+    }
     for e in &tr.evs {
         if let Ev::FinalSnapshot { after_reset: true, tracked, allocated_ids, queues, timeouts, .. } = e {
             if *tracked != 0 || *allocated_ids != 0 || *queues != 0 || *timeouts != 0 {
